@@ -90,6 +90,9 @@ def _build(c, variant=0):
                    metadata=None if variant == 0 else mk_md(c))
 
 
+_LAST_ID = [b"\x02" * 20]
+
+
 def impl(c):
     from swh.model import git_objects
     from swh.model.model import Release
@@ -104,6 +107,14 @@ def impl(c):
         with warnings.catch_warnings():
             warnings.simplefilter("ignore")
             res["manifest_from_dict_arg"] = git_objects.release_git_object(r.to_dict()).hex()    # deprecated route
+            # ... carrying an id that is not its own (one value for the whole run, and the id of the previous case):
+            # the id key of the dict must not decide what is formatted
+            for stale in (b"\x01" * 20, _LAST_ID[0]):
+                git_objects.release_git_object(dict(r.to_dict(), id=stale, message=b"another release"))      # another object seen under that id first (self-contained replay)
+                m2 = git_objects.release_git_object(dict(r.to_dict(), id=stale)).hex()
+                if m2 != res["manifest_from_dict_arg"]:
+                    res["manifest_from_dict_arg"] = "differs when the dict carries the id %s: %s" % (stale.hex(), m2[:80])
+            _LAST_ID[0] = r.id
     except Exception as e:
         res["manifest_from_dict_arg"] = "error:" + exc_class(e)
     try:
@@ -117,6 +128,26 @@ def impl(c):
         res["id_from_dict"] = Release.from_dict(d).id.hex()
     except Exception as e:
         res["id_from_dict"] = "error:" + exc_class(e)
+    # dictionary route with the tagger given WITHOUT a fullname (legacy rows): the documented rule builds it from name and
+    # email - "name", "<email>" or "name <email>", an empty name or email still counts - and the id is the tag id of that
+    if c["author"] is not None and c["target"] is not None:
+        try:
+            from swh.model.model import Person
+            fn = bytes.fromhex(c["author"])
+            half = len(fn) // 2
+            bad = []
+            for name, email in ((fn, None), (None, fn), (fn, b""), (b"", fn), (fn[:half], fn[half:]), (b"", b"")):
+                parts = ([name] if name is not None else []) + ([b"<" + email + b">"] if email is not None else [])
+                want = Release(name=bytes.fromhex(c["name"]), message=None if c["message"] is None else bytes.fromhex(c["message"]),
+                               target=bytes.fromhex(c["target"]), target_type=__import__("swh.model.model", fromlist=["x"]).ReleaseTargetType(c["ttype"]),
+                               synthetic=c["synthetic"], author=Person(fullname=b" ".join(parts), name=name, email=email),
+                               date=mk_tstz(c["date"])).id
+                got = Release.from_dict(dict(d, author={"name": name, "email": email})).id
+                if got != want:
+                    bad.append([None if name is None else name.hex(), None if email is None else email.hex()])
+            res["nofullname_bad"] = bad
+        except Exception as e:
+            res["nofullname_bad"] = "error:" + exc_class(e)
     return res
 
 
@@ -152,6 +183,9 @@ def oracle(c, ires, mres):
         return "synthetic flag / metadata / split name+email influence the id"
     if ires["id_from_dict"] != ires["id"]:
         return "id differs between constructor and from_dict"
+    if ires.get("nofullname_bad"):
+        return ("Release.from_dict with a tagger given as {name, email} without fullname: the id is not the tag id of the "
+                "documented fullname ('name', '<email>' or 'name <email>') for (name, email) = %s" % str(ires["nofullname_bad"])[:200])
     if ires["swhid"] != "swh:1:rel:" + ires["id"] or ires["target_swhid"] != "swh:1:%s:%s" % (SWHIDT[c["ttype"]], c["target"]):
         return "swhid()/target_swhid() wrong"
     got = mres.get("parsed_impl_manifest", "none")
